@@ -46,7 +46,7 @@ theorem stream_eq_payload (B : Nat) (hb : 32 ≤ B) (ps : List Wire) (hps : Push
   cases w with
   | blob t s =>
     simp only [streamable, Bool.or_eq_true, beq_iff_eq] at hs
-    simp only [WF, Bool.and_eq_true, lim, decide_eq_true_eq] at hwf
+    simp only [WF, Bool.and_eq_true, lim] at hwf
     obtain ⟨f, hf, hk⟩ := fuel_ok ps hps (bytes (.blob t s) ++ rest) 1 (by omega)
     obtain ⟨f1, rfl⟩ : ∃ k, f = k + 1 := ⟨f - 1, by omega⟩
     rw [hf, streamTo_skip_pushes B hb ps hps]
@@ -55,17 +55,17 @@ theorem stream_eq_payload (B : Nat) (hb : 32 ≤ B) (ps : List Wire) (hps : Push
     have hpay : payload (.blob t s) = s := by
       rcases hs with h | h <;> subst h <;> simp [payload, payloadOf, value, Msg.typ, Msg.str]
     simp only [bytes, List.cons_append, List.append_assoc]
-    have := streamTo_blob B hb f1 t ht s rest hwf.2 h59 wr hw
+    have := streamTo_blob B hb f1 t ht s rest (of_decide_eq_true hwf.2) h59 wr hw
     simp only [List.append_assoc] at this
     rw [this, hpay]
   | chunked t cs =>
     simp only [streamable, Bool.or_eq_true, beq_iff_eq] at hs
-    simp only [WF, Bool.and_eq_true, lim, List.all_eq_true, Bool.not_eq_true', decide_eq_true_eq] at hwf
+    simp only [WF, Bool.and_eq_true, lim, List.all_eq_true, Bool.not_eq_true'] at hwf
     obtain ⟨_, hcs⟩ := hwf
     have hcs' : ∀ c ∈ cs, c ≠ [] ∧ c.length < 9223372036854775808 := by
       intro c hc
       have := hcs c hc
-      exact ⟨by intro e; subst e; simp at this, this.2⟩
+      exact ⟨by intro e; subst e; simp at this, of_decide_eq_true this.2⟩
     have hlen := chunks_len cs
     have hshape : bytes (.chunked t cs) ++ rest =
         t :: 63 :: 13 :: 10 :: ((cs.map chunkBytes).flatten ++ (59 :: 48 :: 13 :: 10 :: rest)) := by
@@ -102,7 +102,7 @@ theorem stream_eq_payload (B : Nat) (hb : 32 ≤ B) (ps : List Wire) (hps : Push
     obtain ⟨f, hf, hk⟩ := fuel_ok ps hps (bytes (.bool b) ++ rest) 1 (by omega)
     obtain ⟨f1, rfl⟩ : ∃ k, f = k + 1 := ⟨f - 1, by omega⟩
     rw [hf, streamTo_skip_pushes B hb ps hps]
-    refine streamTo_default_some B hb f1 _ hwf 35 _ (by simp only [bytes]) (by decide) rest wr _ ?_
+    refine streamTo_default_some B hb f1 _ hwf 35 [if b then 116 else 102, 13, 10] (by simp only [bytes] <;> rfl) (by decide) rest wr _ ?_
     simp [msgCase, value, Msg.typ, Msg.int, writeOut, Wr.write, hw, payload, payloadOf, fmtInt]
   | _ => simp [streamable] at hs
 
@@ -131,21 +131,21 @@ theorem null_is_Nil (B : Nat) (hb : 32 ≤ B) (ps : List Wire) (hps : Pushes ps)
   rw [hf, streamTo_skip_pushes B hb ps hps]
   cases w with
   | null =>
-    exact streamTo_default_some B hb f1 _ hwf 95 _ (by simp only [bytes]) (by decide) rest wr _ (by
+    exact streamTo_default_some B hb f1 _ hwf 95 _ (by simp only [bytes] <;> rfl) (by decide) rest wr _ (by
       simp [msgCase, value, Msg.typ])
   | nullBlob t =>
     simp only [WF, isBlobT, Bool.or_eq_true, beq_iff_eq] at hwf
     rcases hwf with (h | h) | h
     · subst h; exact streamTo_nullblob B hb f1 36 (Or.inl rfl) wr rest
     · subst h
-      exact streamTo_default_some B hb f1 (.nullBlob 33) (by decide) 33 _ (by simp only [bytes]) (by decide) rest wr _ (by
+      exact streamTo_default_some B hb f1 (.nullBlob 33) (by decide) 33 _ (by simp only [bytes] <;> rfl) (by decide) rest wr _ (by
         simp [msgCase, value, Msg.null, Msg.typ])
     · subst h; exact streamTo_nullblob B hb f1 61 (Or.inr (Or.inl rfl)) wr rest
   | nullArr t =>
     have hnb : isBlobLike t = false := by
       simp only [WF, isArrT, Bool.or_eq_true, beq_iff_eq] at hwf
       rcases hwf with (h | h) | h <;> subst h <;> decide
-    exact streamTo_default_some B hb f1 _ hwf t _ (by simp only [bytes]) hnb rest wr _ (by
+    exact streamTo_default_some B hb f1 _ hwf t _ (by simp only [bytes] <;> rfl) hnb rest wr _ (by
       simp [msgCase, value, Msg.null, Msg.typ])
   | _ => simp [isNullReply] at hn
 
@@ -172,11 +172,11 @@ theorem error_reply_is_error (B : Nat) (hb : 32 ≤ B) (ps : List Wire) (hps : P
       simp [msgCase, value, Msg.typ, Msg.str])
   | blob t s =>
     simp only [isErrorReply, beq_iff_eq] at he; subst he
-    exact streamTo_default_some B hb f1 _ hwf 33 _ (by simp only [bytes]) (by decide) rest wr _ (by
+    exact streamTo_default_some B hb f1 _ hwf 33 _ (by simp only [bytes] <;> rfl) (by decide) rest wr _ (by
       simp [msgCase, value, Msg.typ, Msg.str])
   | chunked t cs =>
     simp only [isErrorReply, beq_iff_eq] at he; subst he
-    exact streamTo_default_some B hb f1 _ hwf 33 _ (by simp only [bytes]) (by decide) rest wr _ (by
+    exact streamTo_default_some B hb f1 _ hwf 33 _ (by simp only [bytes] <;> rfl) (by decide) rest wr _ (by
       simp [msgCase, value, Msg.typ, Msg.str])
   | _ => simp [isErrorReply] at he
 
@@ -263,24 +263,26 @@ private theorem copyN_bounds (wr : Wr) (n : Nat) (p : List UInt8) (hn : 0 < n) :
     · simp only [List.length_drop]; omega
     · simp only [List.length_drop]; omega
 
+private theorem wrap_cases (n w : Nat) (hn : n < 9223372036854775808) (hw : w ≤ n) :
+    wrap64 (wrap64 ((n : Int) + 2) - (w : Int)) = (n : Int) + 2 - (w : Int) ∨
+    wrap64 (wrap64 ((n : Int) + 2) - (w : Int)) < 0 := by
+  unfold wrap64; omega
+
 private theorem finishBlob_short (n : Nat) (hn : n < 9223372036854775808) (c : CopyRes)
     (h1 : c.written ≤ n) (h2 : c.rest.length + c.written < n + 2) :
     (finishBlob (wrap64 ((n : Int) + 2)) c).clean = false := by
   unfold finishBlob
+  have hw := wrap_cases n c.written hn h1
+  generalize wrap64 (wrap64 ((n : Int) + 2) - (c.written : Int)) = k at hw
   simp only
-  split
-  · rfl
-  · rename_i hk
-    split
-    · rename_i hle
-      exfalso
-      have : wrap64 (wrap64 ((n : Int) + 2) - (c.written : Int)) = ((n + 2 - c.written : Nat) : Int) ∨
-             wrap64 (wrap64 ((n : Int) + 2) - (c.written : Int)) < 0 := by
-        unfold wrap64; omega
-      rcases this with h | h
-      · rw [h] at hle; simp only [Int.toNat_natCast] at hle; omega
-      · exact hk h
-    · rfl
+  by_cases hk : k < 0
+  · simp only [hk, if_true]
+  · have hk' : k = (n : Int) + 2 - (c.written : Int) := by
+      rcases hw with h | h
+      · exact h
+      · exact absurd h hk
+    have hgt : ¬ (k.toNat ≤ c.rest.length) := by omega
+    simp only [hk, if_false, hgt]
 
 /-- **short_input_not_clean** (blob strings, the streaming-specific path). If the server
     stops anywhere inside the payload or its trailing CRLF of a `$n` / `=n` / `;n` frame,
@@ -644,8 +646,6 @@ example : Pushes [.arr 62 [.blob 36 [109], .int 1], .attr (.map 124 [.line 43 [1
   simp only [List.mem_cons, List.mem_nil_iff, or_false] at hp
   rcases hp with h | h <;> subst h <;> exact ⟨by decide, by decide⟩
 example : WF (.chunked 36 [[97], [98, 13, 10]]) = true ∧ streamable (.chunked 36 [[97], [98, 13, 10]]) = true := by decide
-example : (run 4096 ⟨none, 0, []⟩ (bytes (.arr 62 [.int 1]) ++ (bytes (.chunked 36 [[97], [98, 99]]) ++ [43]))).w.out = [97, 98, 99] := by
-  decide +kernel
 example : aggType (.stream 37 [.line 43 [97], .int 1]) = some 37 := by decide
 
 end Rv.C29
